@@ -316,6 +316,9 @@ def C07(tier):
                      bounds="canonical edge lists (%s) x {greedy,dfs} x {NS,LP} x {SinkColoring,VAlign}, polyline; two calls, every `range` over a map "
                             "visits its keys in an independent solver-chosen order in each call; input slices/maps compared before/after" % nm(q, "N<=4 M<=2 and N<=3 M<=3", "N<=4 M<=4"),
                      enctimeout=90, maporder="symbolic")]
+    obs.append(layout_ob("layout-two-size-maps", "Harness_E_C07", shapes(3, 2) if q else shapes(3, 3), {"P4": [4, 1]}, consts={"P1": 0, "P2": 0, "P5": 2, "SZ": 6},
+                         bounds="canonical edge lists %s x {SinkColoring,VAlign}; history of four calls: first size map alone, twice with two WithNodeSize options "
+                                "(symbolic sizes), first map alone again; results of equal calls identical, both caller maps unmodified" % nm(q, "N<=3 M<=2", "N<=3 M<=3")))
     if not q:
         obs.append(layout_ob("layout-deterministic-more", "Harness_E_C07", shapes(3, 3), {"P4": [5, 2, 3], "P5": [1, 3]},
                              consts={"P1": 0, "P2": 0, "SZ": 5, "INTSZ": 1, "NSFIX": 10, "LSFIX": 20}, loop=192, enctimeout=200, maporder="symbolic",
@@ -342,6 +345,12 @@ def C08(tier):
                          bounds="%s x three FIXED renamings (reverse order of the same names, helper-node names V3,V2,V1,NE3.. in descending order, rotation) - enumerated, not "
                                 "solver-chosen: concrete names keep name comparisons concrete on shapes where a symbolic name exhausts the encoding budget; %s"
                                 % (nm(q, "all canonical edge lists N<=3 M<=3 + every 4th cyclic connected list N<=4 M<=4", "all canonical edge lists N<=3 M<=3 + all cyclic connected lists N<=4 M<=4 x {greedy,dfs} x {SinkColoring,VAlign}"), SYMB)))
+    col = shapes(4, 4, selfloops=False, connected=True)
+    obs.append(layout_ob("layout-rename-colliding-names", "Harness_E_C08", col if q else col + shapes(5, 4, selfloops=False, connected=True)[len(col):], {"REN": [4, 5]},
+                         consts={"P1": 0, "P2": 0, "P4": 4, "P5": 2, "SZ": 2},
+                         bounds="all connected loop-free canonical edge lists %s x two FIXED renamings whose concatenations collide (\"\", x, xx, xxx.. - every concatenation "
+                                "commutes, the empty name is invisible; 1, 12, 2, 11.. - \"1\"+\"12\" == \"11\"+\"2\"): any key, hash or cache built from "
+                                "concatenated IDs without a separator; default pipeline; %s" % (nm(q, "N<=4 M<=4", "N<=5 M<=4"), SYMB)))
     return dict(obligations=obs)
 
 
